@@ -1,0 +1,6 @@
+//go:build verif
+
+package trafficrouting
+
+// Verification hook (build tag verif).
+func SetDefaultGracePeriodSecondsForVerif(s int32) { defaultGracePeriodSeconds = s }
